@@ -92,10 +92,15 @@ PROPS["C01"] = dict(
     selftest=dict(quick=40, thorough=200),
     trace=dict(module="trace/T_Expr.tla", cfg="trace/T_Expr.cfg"),
     trace_chunk=1500,
+    # second recorded-run stage: the composed specification of a whole find run (FindSem: grammar and evaluation order
+    # over the real tests of Stat/Glob/Numeric, -print/-print0/-printf, -prune, -quit, depth range, follow modes)
+    more=[dict(record_vh="SEM", record=dict(quick=400, thorough=8000), trace=dict(module="trace/T_Find.tla", cfg="trace/T_Find.cfg"), trace_chunk=300)],
     rule="MC: every token sequence up to L over 15 tokens (2 tests, 2 actions, -true, -false, -prune, -quit, an option, ! -a -o , ( )); "
          "builder machine = reference grammar and evaluation on all 8 valuations; each sequence is a vector (verdict + output on a 5-entry chain). "
          "Trace: random expressions up to ~40 tokens, nesting up to 6, 6 tests, up to 3 actions, 1 in 6 damaged, on random trees up to 14 entries "
-         "(-sorted) or chains.",
+         "(-sorted) or chains; second stage: random expressions whose leaves are real tests (-type -xtype -perm -uid -gid -size -empty -samefile "
+         "-name -iname -path), -print/-print0/-printf, -prune, -quit on random trees with links, fifos, sockets, hard links, owners, modes - the "
+         "bytes on stdout must be those the composed specification FindSem computes from the attributes read back.",
     exhaustive_note="bounded-exhaustive over token sequences up to L",
     assumptions=["the fixture contains no entry on which a test or action can fail"],
 )
